@@ -12,8 +12,31 @@ open Uquic.Trans
 /-- closes `model = translated` goals whose two sides are nested `if`s over linear integer arithmetic -/
 macro "tie_arith" : tactic => `(tactic| (
   (try dsimp only)
-  (try simp only [Int.reduceToNat, Int.reducePow, Nat.reducePow, Int.reduceMul, Nat.reduceMul, Int.reduceAdd, Nat.reduceAdd])
-  (repeat' split) <;> first | omega | (simp_all <;> omega) | (simp_all; done)))
+  all_goals (try simp only [Int.reduceToNat, Int.reducePow, Nat.reducePow, Int.reduceMul, Nat.reduceMul, Int.reduceAdd, Nat.reduceAdd,
+    Int.reduceSub, Nat.reduceSub, Int.reduceDiv, Nat.reduceDiv, Int.reduceNeg, Int.cast_ofNat_Int])
+  all_goals (repeat' split) <;> first | omega | (simp_all <;> omega) | (simp_all; done)))
+
+/-- Go's truncated `/` and `%` are the Euclidean ones on a non-negative dividend (side goals by `omega`,
+    products of non-negative factors included) -/
+macro "tdiv_norm" : tactic => `(tactic|
+  simp (disch := first | omega | (apply Int.mul_nonneg <;> omega) | (apply Int.natCast_nonneg)) only
+    [Int.tdiv_eq_ediv_of_nonneg, Int.tmod_eq_emod_of_nonneg])
+
+macro "tdiv_norm" "at" h:ident : tactic => `(tactic|
+  simp (disch := first | omega | (apply Int.mul_nonneg <;> omega) | (apply Int.natCast_nonneg)) only
+    [Int.tdiv_eq_ediv_of_nonneg, Int.tmod_eq_emod_of_nonneg] at $h:ident)
+
+/-- closes `model = translated` goals between `Bool`-valued functions built from comparisons, `&&`, `||`, `!`, `if` -/
+macro "bool_tie" : tactic => `(tactic| (
+  (try dsimp only)
+  all_goals rw [Bool.eq_iff_iff]
+  all_goals (
+    (repeat' split) <;>
+    (try simp only [Bool.and_eq_true, Bool.or_eq_true, Bool.not_eq_true', Bool.not_eq_eq_eq_not, decide_eq_true_eq,
+      decide_eq_false_iff_not, Bool.true_eq_false, Bool.false_eq_true, ne_eq, true_iff, iff_true, false_iff, iff_false,
+      true_and, and_true, false_and, and_false, true_or, or_true, false_or, or_false, not_true_eq_false,
+      not_false_eq_true]) <;>
+    omega)))
 
 theorem emod_le_self (a p : Int) (ha : 0 ≤ a) (hp : 0 < p) : a % p ≤ a := by
   have := Int.emod_def a p
